@@ -270,3 +270,29 @@ PROPS["C06"] = dict(
     assumptions=["root, raw and stop-window allocations are deleted by the program, as the API documents",
                  "main thread is idle while a worker runs (the ledger itself is then race-free)"],
 )
+
+PROPS["C05"] = dict(
+    harness="c05_ownership.c", level="exploration", leaks=True,
+    technique="runtime token-ledger monitor: probe element type (birth at construction / first assignment, death in "
+              "the destructor); after every operation live tokens == sum of container lengths, all contained tokens "
+              "live and pairwise distinct, every container equals its own model; ASan+UBSan+LSan",
+    level_text="Exploration: 8 containers (Array, List, Table, Tree, two of each) of a probe element type that owns "
+               "heap memory, driven through push/push_at/pop/pop_at/set/rem/sort/resize/clear/concat, map "
+               "set/update-under-collision/rem/rehash, assign between same and different kinds, del + copy, with the "
+               "collector running and stopped; Box containers (Array<Box>, List<Box>, Table<Int,Box>) with managed "
+               "probe pointees checked for 'finalised when removed / cleared / container deleted, never while "
+               "contained, never twice'.",
+    level_note="Trusts the ledger (token ids never reused) and the per-container models. Replacing a Box element by "
+               "assignment leaves the old pointee to the collector (promptness is not decidable).",
+    quick=[("asan", 16, 150)],
+    thorough=[("asan", 16, 800), ("plain", 16, 2500)],
+    floors={"quick": {"table_replace_under_collision": 20, "table_states_with_25_or_more_bindings": 20,
+                      "cross_kind_assigns": 10, "same_kind_assigns": 10, "copies": 20, "clears": 20,
+                      "sort_swap_moves": 10, "concats": 10, "box_container_operations": 200,
+                      "box_containers_deleted": 20, "cases_with_collector_stopped": 5, "tree_updates": 20}},
+    rule="case = 8 containers driven through 40-200 (thorough: up to 540) random operations with the ledger and model "
+         "oracles after every operation, or one Box container through 40-160 operations; distinct = hash of the "
+         "operation list; non-trivial = at least 20 operations",
+    assumptions=["Box containers are never copied (a Box is a unique owner)", "assignment sources are of the same "
+                 "family (sequence <- sequence, map <- map)"],
+)
